@@ -37,6 +37,9 @@ type Input struct {
 	Lengths map[string]int64
 	// Endless marks routes whose body never ends (zeros after Bodies' bytes)
 	Endless map[string]bool
+	// RetryAfter marks routes that answer 429 / 503 with a Retry-After header
+	// asking the client to come back in the far future
+	RetryAfter map[string]string
 	// Redirect marks routes that answer every request with a redirect to an ever
 	// new URL of the same route
 	Redirect map[string]bool
@@ -735,7 +738,7 @@ func genHostileBody(rng *rand.Rand, idx int) Input {
 	}
 	ch := pki.MustBuild(specs...)
 	cert, issuer, ikey := ch.Certs[0], ch.Certs[1], ch.Keys[1]
-	in := Input{Kind: "chain", WithST: rng.IntN(2) == 0, Cache: rng.IntN(2) == 0, Bodies: map[string][]byte{}, Lengths: map[string]int64{}, Endless: map[string]bool{}, Redirect: map[string]bool{}}
+	in := Input{Kind: "chain", WithST: rng.IntN(2) == 0, Cache: rng.IntN(2) == 0, Bodies: map[string][]byte{}, Lengths: map[string]int64{}, Endless: map[string]bool{}, Redirect: map[string]bool{}, RetryAfter: map[string]string{}}
 	if upper {
 		b := pki.BuildCRL(&pki.CRL{IssuerRawName: ch.Certs[2].RawSubject, SignKey: ch.Keys[2], NextUpdate: pki.Future, Number: big.NewInt(7)})
 		in.Bodies[fmt.Sprintf("e0.%s.test/base.crl", fam)] = b[:len(b)-1]
@@ -751,6 +754,10 @@ func genHostileBody(rng *rand.Rand, idx int) Input {
 		if rng.IntN(25) == 0 {
 			in.Endless[fmt.Sprintf("o%d.%s.test", j, fam)] = true
 			d += " endless-body"
+		}
+		if rng.IntN(40) == 0 {
+			in.RetryAfter[fmt.Sprintf("o%d.%s.test", j, fam)] = "Fri, 31 Dec 2100 23:59:59 GMT"
+			d += " retry-after"
 		}
 		if rng.IntN(6) == 0 {
 			l := lyingLengths[rng.IntN(len(lyingLengths))]
@@ -770,6 +777,10 @@ func genHostileBody(rng *rand.Rand, idx int) Input {
 		if rng.IntN(40) == 0 {
 			in.Redirect[host+"/base.crl"] = true
 			d += " endless-redirects"
+		}
+		if rng.IntN(30) == 0 {
+			in.RetryAfter[host+"/base.crl"] = []string{"Fri, 31 Dec 2100 23:59:59 GMT", "4000000000", "Thu, 01 Jan 1970 00:00:00 GMT", "-1", "1e9", "99999999999999999999"}[rng.IntN(6)]
+			d += " retry-after=" + in.RetryAfter[host+"/base.crl"]
 		}
 		if rng.IntN(6) == 0 {
 			l := lyingLengths[rng.IntN(len(lyingLengths))]
